@@ -57,24 +57,21 @@ theorem life_iter {f : State → State} {c' : Conn}
     obtain ⟨g1, g2⟩ := hf s
     exact ⟨h1.trans g1, h2.trans g2⟩
 
-theorem life_dataCmd (q : Quirks) (now : Nat) (c cid : Conn) (s : State) (cmd : Cmd) (c' : Conn) :
-    ((dataCmd q now c cid s cmd).conns c').gone = (s.conns c').gone ∧
-    ((dataCmd q now c cid s cmd).conns c').peerClosed = (s.conns c').peerClosed := by
+theorem life_drain (q : Quirks) (s : State) (c' : Conn) :
+    ((drain q s).conns c').gone = (s.conns c').gone ∧ ((drain q s).conns c').peerClosed = (s.conns c').peerClosed := by
+  unfold drain
+  split
+  · exact life_iter (life_wakeOne q · c') _ _
+  · exact ⟨rfl, rfl⟩
+
+theorem life_dataCore (q : Quirks) (now : Nat) (c cid : Conn) (s : State) (cmd : Cmd) (c' : Conn) :
+    ((dataCore q now c cid s cmd).conns c').gone = (s.conns c').gone ∧
+    ((dataCore q now c cid s cmd).conns c').peerClosed = (s.conns c').peerClosed := by
   cases cmd with
-  | push op k vs =>
-    simp only [dataCmd]
-    split
-    · simp
-    · split
-      · obtain ⟨h1, h2⟩ := life_iter (life_wakeOne q · c') wakeBatch
-          (notifyN (if q.notifyPerElement then vs.length else 1) k
-            (emit { s with store := pushElems op k vs s.store, pushed := (s.pushed ++ vs.map fun v => (k, v)) } c
-              (.int (listOf (pushElems op k vs s.store) k).length)))
-        rw [h1, h2]; simp
-      · simp
-  | pop op k => simp only [dataCmd]; split <;> simp
+  | push op k vs => simp only [dataCore]; split <;> simp
+  | pop op k => simp only [dataCore]; split <;> simp
   | bpop op keys t =>
-    simp only [dataCmd]
+    simp only [dataCore]
     split
     · simp
     · split
@@ -82,6 +79,13 @@ theorem life_dataCmd (q : Quirks) (now : Nat) (c cid : Conn) (s : State) (cmd : 
       · split <;> simp
   | multi => exact ⟨rfl, rfl⟩
   | exec => exact ⟨rfl, rfl⟩
+
+theorem life_dataCmd (q : Quirks) (now : Nat) (c cid : Conn) (s : State) (cmd : Cmd) (c' : Conn) :
+    ((dataCmd q now c cid s cmd).conns c').gone = (s.conns c').gone ∧
+    ((dataCmd q now c cid s cmd).conns c').peerClosed = (s.conns c').peerClosed := by
+  obtain ⟨h1, h2⟩ := life_drain q (dataCore q now c cid s cmd) c'
+  obtain ⟨g1, g2⟩ := life_dataCore q now c cid s cmd c'
+  exact ⟨h1.trans g1, h2.trans g2⟩
 
 theorem Open_dataCmd {q : Quirks} {now : Nat} {c cid : Conn} {s : State} {cmd : Cmd} {x : Conn} (h : Open s x) :
     Open (dataCmd q now c cid s cmd) x := by
@@ -345,9 +349,15 @@ theorem firstNonEmpty_single (op : Op) (st : List (Key × Elem)) (k : Key) :
   simp only [firstNonEmpty]
   cases popElem op k st <;> rfl
 
-theorem Inv_dataCmd (q : Quirks) (now : Nat) (c cid : Conn) (s : State) (cmd : Cmd)
+theorem Inv_drain (q : Quirks) (s : State) (hI : Inv s) : Inv (drain q s) := by
+  unfold drain
+  split
+  · exact Inv_iter (Inv_wakeOne q) _ _ hI
+  · exact hI
+
+theorem Inv_dataCore (q : Quirks) (now : Nat) (c cid : Conn) (s : State) (cmd : Cmd)
     (hI : Inv s) (ho : Open s c) (hcid : cid = c ∨ cid = 0) (hok : dataOk s cid cmd = true) :
-    Inv (dataCmd q now c cid s cmd) := by
+    Inv (dataCore q now c cid s cmd) := by
   obtain ⟨hc0, hcg, hcp⟩ := ho
   cases cmd with
   | push op k vs =>
@@ -355,13 +365,8 @@ theorem Inv_dataCmd (q : Quirks) (now : Nat) (c cid : Conn) (s : State) (cmd : C
     obtain ⟨v, rfl⟩ : ∃ v, vs = [v] := by
       match vs, hok with
       | [v], _ => exact ⟨v, rfl⟩
-    simp only [dataCmd, List.isEmpty_cons, Bool.false_eq_true, if_false, List.length_cons, List.length_nil,
+    simp only [dataCore, List.isEmpty_cons, Bool.false_eq_true, if_false, List.length_cons, List.length_nil,
       Nat.zero_add, ite_self, notifyN]
-    suffices hN : Inv (notify k (emit { s with store := pushElems op k [v] s.store, pushed := s.pushed ++ [(k, v)] } c
-        (.int (listOf (pushElems op k [v] s.store) k).length))) by
-      split
-      · exact Inv_iter (Inv_wakeOne q) _ _ hN
-      · exact hN
     apply Inv_push_notify hI k
     · simp
     · simp
@@ -378,7 +383,7 @@ theorem Inv_dataCmd (q : Quirks) (now : Nat) (c cid : Conn) (s : State) (cmd : C
       rw [countP_pushElems_single]; simp [cntL, hk']
   | pop op k =>
     simp only [dataOk] at hok
-    simp only [dataCmd]
+    simp only [dataCore]
     split
     · next e st' hp => exact Inv_emit (Inv_pop hI hp hok) hcp _
     · exact Inv_emit hI hcp _
@@ -394,14 +399,14 @@ theorem Inv_dataCmd (q : Quirks) (now : Nat) (c cid : Conn) (s : State) (cmd : C
       · exact absurd h hcid0
     subst hcc
     have hnw : noWakeFor s k = true := by simpa using hall
-    simp only [dataCmd, List.isEmpty_cons, Bool.false_eq_true, if_false, firstNonEmpty_single]
+    simp only [dataCore, List.isEmpty_cons, Bool.false_eq_true, if_false, firstNonEmpty_single]
     split
     · next e st' hp => exact Inv_emit (Inv_pop hI hp hnw) hcp _
     · next hp =>
       have hnot : ¬ (cid = 0 ∧ q.refuseBlockingInTx = true) := fun h => hcid0 h.1
       have hrk : regKeys q [k] = [k] := by
         unfold regKeys; split
-        · simp [List.eraseDups_cons]
+        · simp [dedupL]
         · rfl
       simp only [hnot, if_false, hrk, List.map_cons, List.map_nil]
       have hL0 : cntL s k = 0 := cntL_zero_of_popElem_none hp
@@ -425,6 +430,11 @@ theorem Inv_dataCmd (q : Quirks) (now : Nat) (c cid : Conn) (s : State) (cmd : C
       · simp [hI.lost]
   | multi => exact hI
   | exec => exact hI
+
+theorem Inv_dataCmd (q : Quirks) (now : Nat) (c cid : Conn) (s : State) (cmd : Cmd)
+    (hI : Inv s) (ho : Open s c) (hcid : cid = c ∨ cid = 0) (hok : dataOk s cid cmd = true) :
+    Inv (dataCmd q now c cid s cmd) :=
+  Inv_drain q _ (Inv_dataCore q now c cid s cmd hI ho hcid hok)
 
 theorem Inv_foldl_dataCmd (q : Quirks) (now : Nat) (c cid : Conn) (hcid : cid = c ∨ cid = 0) (cmds : List Cmd) :
     ∀ s, Inv s → Open s c → dataSeqOk q now c cid s cmds = true → Inv (cmds.foldl (dataCmd q now c cid) s) := by
@@ -510,13 +520,19 @@ theorem Inv_topCmd (q : Quirks) (now : Nat) (c : Conn) (s : State) (cmd : Cmd)
     · exact hq _ _ (fun _ => ⟨rfl, rfl, rfl⟩)
     · next hin => simp only [hin] at hok; exact Inv_dataCmd q now c c s _ hI ho (.inl rfl) hok
 
-theorem Inv_foldl_topCmd (q : Quirks) (now : Nat) (c : Conn) (cmds : List Cmd) :
-    ∀ s, Inv s → Open s c → topSeqOk q now c s cmds = true → Inv (cmds.foldl (topCmd q now c) s) := by
+theorem Inv_runBatch (q : Quirks) (now : Nat) (c : Conn) (cmds : List Cmd) :
+    ∀ s, Inv s → Open s c → batchOk q now c cmds s = true → Inv (runBatch q now c cmds s) := by
   induction cmds with
   | nil => intro s h _ _; exact h
   | cons cmd r ih =>
     intro s h ho hok
-    simp only [topSeqOk, Bool.and_eq_true] at hok
-    exact ih _ (Inv_topCmd q now c s cmd h ho hok.1) (Open_topCmd ho) hok.2
+    simp only [batchOk, Bool.and_eq_true] at hok
+    simp only [runBatch]
+    split
+    · exact Inv_setConn_tx (Inv_topCmd q now c s cmd h ho hok.1) c _ (fun _ => ⟨rfl, rfl, rfl⟩)
+    · next hd =>
+      have h2 := hok.2
+      simp only [hd, if_false] at h2
+      exact ih _ (Inv_topCmd q now c s cmd h ho hok.1) (Open_topCmd ho) h2
 
 end Ferrous.Blk
